@@ -272,7 +272,7 @@ func runC05(p *engine.Prog, r *engine.Report) {
 				if !ok {
 					continue
 				}
-				x, ok := loadOfField(mu.Map, c.fNewTargets)
+				x, ok := c.postedListOwner(mu)
 				if !ok {
 					continue
 				}
